@@ -750,8 +750,46 @@ static CPU_FEATURES: OnceLock<CpuFeatures> = OnceLock::new();
 /// detection capabilities following the SIMD implementation plan Phase 1.1
 pub fn get_cpu_features() -> &'static CpuFeatures {
     CPU_FEATURES.get_or_init(|| {
+        #[cfg(zipora_verif)]
+        return verif_mask_features(RuntimeCpuFeatures::new().detect_features());
+        #[cfg(not(zipora_verif))]
         RuntimeCpuFeatures::new().detect_features()
     })
+}
+
+/// Verification hook: lets a test harness force lower dispatch tiers for the whole
+/// process. `ZIPORA_VERIF_DISABLE` is a comma-separated list of feature names
+/// (avx512, avx2, avx, bmi2, bmi1, popcnt, lzcnt, sse42, sse41) that are reported as
+/// absent. Features can only be removed, never added, so every kernel that is
+/// selected is still supported by the hardware.
+#[cfg(zipora_verif)]
+fn verif_mask_features(mut f: CpuFeatures) -> CpuFeatures {
+    if let Ok(list) = std::env::var("ZIPORA_VERIF_DISABLE") {
+        for name in list.split(',') {
+            match name.trim() {
+                "avx512" => {
+                    f.has_avx512f = false;
+                    f.has_avx512vl = false;
+                    f.has_avx512bw = false;
+                    f.has_avx512vpopcntdq = false;
+                }
+                "avx2" => f.has_avx2 = false,
+                "avx" => f.has_avx = false,
+                "bmi2" => f.has_bmi2 = false,
+                "bmi1" => {
+                    f.has_bmi1 = false;
+                    f.has_tzcnt = false;
+                }
+                "popcnt" => f.has_popcnt = false,
+                "lzcnt" => f.has_lzcnt = false,
+                "sse42" => f.has_sse42 = false,
+                "sse41" => f.has_sse41 = false,
+                _ => {}
+            }
+        }
+        f.detect_and_configure_simd();
+    }
+    f
 }
 
 /// Check if a specific CPU feature is available
